@@ -67,7 +67,11 @@ class InitiateResponse(AbstractXDlmsApdu):
     def to_bytes(self) -> bytes:
         # quick and dirty encoding
         out = bytearray()
-        out.append(self.negotiated_quality_of_service)
+        if self.negotiated_quality_of_service:
+            out.append(1)
+            out.append(self.negotiated_quality_of_service)
+        else:
+            out.append(0)
         out.append(self.negotiated_dlms_version_number)
         out.extend(b"\x5f\x1f\x04")
         out.extend(self.negotiated_conformance.to_bytes())
